@@ -9,7 +9,7 @@ from ..core import Ctx
 from ..effects import STORAGE_READS
 from ..flow import ALL, find_path, names_in
 from ..model import AnalysisError, FunctionInfo, dotted, norm_text
-from .common import (edge_target, guarded_names, handler_exits, handler_key, handler_nodes, in_handler,
+from .common import (edge_target, guarded_names, handler_exits, handler_key, handler_nodes, in_handler, owner_tops,
                      in_try_body, reachable_from, try_body_calls)
 
 EXPLANATION = (
@@ -91,6 +91,8 @@ def r1(ctx: Ctx, rid: str = "C07.R1") -> None:
     table = conservative_table()
     gc = ctx.prog.cls(GC)
     for m in sorted(gc.methods.values(), key=lambda x: x.lineno):
+        if ctx.prog.is_transparent(m) and owner_tops(ctx, m):
+            continue  # a helper introduced later: its handlers are judged in the methods it is analysed in place in
         g = ctx.cfg(m)
         for hn in handler_nodes(ctx, m):
             h = hn.ast
